@@ -192,6 +192,8 @@ func checkC18(p *Prog, r *Report) {
 	} else {
 		r.Fail(kp("LIN", "compkey.Decode#anchor"), "anchor", compkeyPkg, "Decode not found")
 	}
+	// ---- D2c: prefix-exact listings: a listing iterates under PartialEncode of exactly the components that name its parent -----
+	aolListings(p, r, buildAolModel(p), "C18")
 	// ---- D3: typed keys ------------------------------------------------------------------------
 	ck := p.Iface(Rel(compkeyPkg), "CompositeKey")
 	impls := p.ImplementersOf(ck)
